@@ -27,7 +27,7 @@ static word vf_lastmask(mzd_t const *M) {
 }
 
 void vf_write_block(mzd_t *M, const word *words, int wstride) {
-  if (M->nrows == 0 || M->ncols == 0) return;
+  if (M->nrows <= 0 || M->ncols <= 0) return;
   wi_t w = (M->ncols + 63) / 64;
   word mask = vf_lastmask(M);
   for (rci_t i = 0; i < M->nrows; i++) {
@@ -39,7 +39,7 @@ void vf_write_block(mzd_t *M, const word *words, int wstride) {
 }
 
 void vf_read_block(mzd_t const *M, word *words, int wstride) {
-  if (M->nrows == 0 || M->ncols == 0) return;
+  if (M->nrows <= 0 || M->ncols <= 0) return;
   wi_t w = (M->ncols + 63) / 64;
   word mask = vf_lastmask(M);
   for (rci_t i = 0; i < M->nrows; i++) {
@@ -62,7 +62,7 @@ void vf_write_raw(mzd_t *M, const word *words) {
 }
 
 word vf_padding_or(mzd_t const *M) {
-  if (M->nrows == 0 || M->ncols == 0) return 0;
+  if (M->nrows <= 0 || M->ncols <= 0) return 0;
   wi_t w = (M->ncols + 63) / 64;
   word mask = vf_lastmask(M);
   word acc = 0;
